@@ -324,6 +324,8 @@ func main() {
 		misc(*out, rng)
 	case "colour":
 		colour(*out, rng)
+	case "dispatch":
+		dispatch(*out)
 	case "tags":
 		tags(*out, *maxlen)
 	case "roles":
